@@ -12,6 +12,7 @@ import k2s
 import k3
 import k4
 import k5
+import k6
 
 _CTX = {}
 
@@ -54,7 +55,7 @@ PROPS = {
     },
     "C04": {
         "title": "Concurrent gets, sets and deletes are linearizable and never panic or hang",
-        "rules": [k2.p6_reader_pool, k2.p3_publish_after_append, k2m.p4_merge_per_entry_order, k1.w2_index_mutators, k5.p17_read_under_index_guard],
+        "rules": [k2.p6_reader_pool, k6.n2_mmap_extent, k2.p3_publish_after_append, k2m.p4_merge_per_entry_order, k1.w2_index_mutators, k5.p17_read_under_index_guard],
         "decides": "the pooled reader returns on every exit incl. unwind; index published only after flushed bytes (put and merge); index mutated only under the writer mutex or before sharing; the file read happens under the index shard guard",
         "not_decided": "linearizability of histories and real-time order (statements about schedules of run-time events)",
     },
@@ -72,8 +73,8 @@ PROPS = {
     },
     "C07": {
         "title": "The RESP parser is total: no input panics, aborts or mis-reads a number",
-        "rules": [k5.r1_bounded_recursion, k1.w4_no_abort],
-        "decides": "bounded recursion depth (ranking argument on every call-graph cycle); no process-terminating call",
+        "rules": [k6.n1_parser_total, k5.r1_bounded_recursion, k1.w4_no_abort],
+        "decides": "every panic obligation of the parser slice (bounds, overflow, Buf preconditions, slice ranges, allocation size, unwrap/panic) discharged by abstract interpretation for every buffer and cursor position; bounded recursion depth (ranking argument on every call-graph cycle); no process-terminating call",
         "not_decided": "digit-by-digit value correctness of accepted numbers",
     },
     "C08": {
